@@ -10,6 +10,7 @@ REPO = os.environ.get("VERIF_REPO", "/repo")
 CRATES = ["renet", "renetcode", "renet_netcode"]
 DRIVER = os.path.join(ROOT, "driver", "target", "release", "verif-mir-driver")
 CACHE = os.environ.get("VERIF_CACHE", os.path.join(ROOT, ".cache"))
+EVID = os.environ.get("VERIF_EVIDENCE_DIR", os.path.join(ROOT, "evidence"))  # scratch runs (seeded variants) must not overwrite the committed evidence
 
 
 def sha(paths):
@@ -160,7 +161,7 @@ def main():
         want = json.load(open(replay))
         viol = [v for v in viol if v.key == want.get("key")]
         print(f"replay of {want.get('rule')} [{want.get('key')}]: {'still violated' if viol else 'no longer violated on the current tree'}")
-    os.makedirs(os.path.join(ROOT, "evidence", "replay"), exist_ok=True)
+    os.makedirs(os.path.join(EVID, "replay"), exist_ok=True)
     for v in hits: print(f"KNOWN-FINDING: property={cid} {known[v.key]['what']}")
     for r in results:
         st = "ok " if not r.violations else "BAD"
@@ -187,9 +188,9 @@ def main():
                            "a passing check means the listed necessary conditions hold on every path, not that the whole behavioural property holds (DESIGN.md section 5, 'Not decided')"],
               wall_s=round(time.time() - t0, 2), violations=len(viol))
     if not replay:
-        tmp = os.path.join(ROOT, "evidence", f".{cid}.json.{os.getpid()}")
+        tmp = os.path.join(EVID, f".{cid}.json.{os.getpid()}")
         json.dump(ev, open(tmp, "w"), indent=1)
-        os.replace(tmp, os.path.join(ROOT, "evidence", f"{cid}.json"))
+        os.replace(tmp, os.path.join(EVID, f"{cid}.json"))
     print(f"{cid}: tier {tier}, {len(results)} rule instances, {sites} sites, {len(hits)} known finding(s), {len(viol)} violation(s), facts {'extracted' if fresh else 'cached'} {key}, {time.time()-t0:.1f}s")
     sys.exit(1 if viol else 0)
 
